@@ -184,10 +184,73 @@ def generate_general(ctx):
     return names
 
 
+def generate_unrodded(ctx):
+    """Low-fidelity regions (single-node and six-node, low-flow approximation on/off, coupled or adiabatic wall): the real
+    `_calc_coolant_temp` is executed symbolically WITH its energy tallies (the real `update_ebal`); Gen/C01Ur.lean holds one
+    theorem per variant: the enthalpy-flow change of all nodes equals the tallied power plus the tallied wall heat, the tallied
+    power is q dz, and (six-node) the conduction between the nodes sums to zero - for all temperatures, powers, film
+    coefficients, properties, flows and step sizes."""
+    import re
+    import dassh.region_unrodded as UR
+    from harness.checks import c04
+    from harness.trace import NpProxy, rebind
+    L = ["-- GENERATED by /verif/harness (C01, low-fidelity regions): traced from dassh.region_unrodded._calc_coolant_temp + update_ebal.",
+         "import Mathlib.Algebra.Order.Field.Basic", "import Mathlib.Tactic.FieldSimp", "import Mathlib.Tactic.Ring", "",
+         "namespace Dassh.Gen.C01Ur", "", "variable {K : Type} [Field K] [LinearOrder K] [IsStrictOrderedRing K]", "",
+         "set_option linter.unusedVariables false", ""]
+    names = []
+    fix = lambda t: re.sub(r"\((\d+) : α\)", r"(\1 : K)", t)
+    for model, cls in (("simple", UR.SingleNodeHomogeneous), ("6node", UR.MultiNodeHomogeneous)):
+        for conv_approx in (False, True):
+            for adiabatic in (False, True):
+                tag = "%s_%s%s" % ("simple" if model == "simple" else "six", "ca" if conv_approx else "std", "_adiab" if adiabatic else "")
+                try:
+                    o, tr, reg, nn, dz, q = c04.sym_unrodded(model, cls, conv_approx)
+                    o.ebal = {'power': tr.const(0), 'duct': NpProxy(tr).zeros(6)}
+                    dT = np.atleast_1d(rebind(cls._calc_coolant_temp, tr)(o, dz, {'refl': q}, adiabatic, True))
+                except Exception:
+                    import traceback
+                    ctx.problem("trace-failed", "c01 unrodded " + tag, traceback.format_exc()[-800:])
+                    continue
+                msym = o.flow_rate if model == "simple" else o._scfr
+                cp = o.coolant.heat_capacity
+                lhs = _total(msym * cp * dT[i] for i in range(nn))
+                ep = o.ebal['power']
+                ed = _total(list(np.ravel(o.ebal['duct'])))
+                if not isinstance(ed, Sym):
+                    ed = tr.const(ed)
+                vs = sorted(used_vars([lhs, ep, ed]))
+                params = [v for v in vs if not re.match(r"T_\d+$|Tmw_\d+_\d+$|Ts_\d+_\d+_\d+$|q$", v)]
+                hyps = " ".join("(h_%s : 0 < %s)" % (v, v) for v in params)
+                tr2 = Trace()
+                ident = lambda v: v
+                txt = lambda e: fix(to_lean(rename(e, ident, tr2)))
+                # exchange-only part: no power, wall at the coolant temperature of the node it faces
+                zero = {'q': 0}
+                for j in range(6):
+                    own = tr2.var("T_%d" % (j if nn == 6 else 0), 650.0)
+                    zero["Ts_0_0_%d" % j] = own
+                    zero["Tmw_0_%d" % j] = own
+                exch = fix(to_lean(substitute(rename(lhs, ident, tr2), zero, tr2)))
+                nm = "ur_balance_" + tag
+                L.append("/-- %s model%s%s: %d node(s) -/" % (model, ", low-flow approximation" if conv_approx else "",
+                                                             ", adiabatic wall" if adiabatic else "", nn))
+                L.append("theorem %s (%s : K) %s :\n    %s = %s + (%s)\n    ∧ %s = q * dz\n    ∧ %s = 0 := by"
+                         % (nm, " ".join(vs), hyps, txt(lhs), txt(ep), txt(ed), txt(ep), exch))
+                L.append("  refine ⟨by first | (field_simp; ring) | field_simp | ring, by first | ring | (field_simp; ring) | field_simp, "
+                         "by first | ring | (field_simp; ring) | field_simp⟩\n")
+                names.append("Dassh.Gen.C01Ur." + nm)
+                ctx.count("unrodded_variants_traced")
+    L.append("end Dassh.Gen.C01Ur\n")
+    ctx.gen("C01Ur", "\n".join(L))
+    return names
+
+
 def generate(ctx):
     txt, info = generate_text(ctx, random.Random(3000))
     ctx.gen("C01", txt)
     generate_general(ctx)
+    generate_unrodded(ctx)
     return info
 
 
@@ -377,6 +440,7 @@ def run(ctx):
         ctx.gen("C01", txt)
         ctx.stats["trace"] = info
         generate_general(ctx)
+        generate_unrodded(ctx)
         ok_line = bt.check_mfrc_line()
         ctx.obligation("source line `_mfrc = area * int_flow_rate / bundle area` unchanged in _setup_flowrate", ok_line,
                        kind="translator-validation")
@@ -386,7 +450,7 @@ def run(ctx):
         ctx.problem("trace-failed", "c01 tracer", traceback.format_exc()[-2000:])
         gen_ok = False
     if gen_ok:
-        ctx.prove("Dassh.Props.C01")
+        ctx.prove("Dassh.Props.C01", also=["Dassh.Gen.C01Ur"])
     oracle_reactor(ctx, rng, 40 if ctx.thorough else 10)
     ctx.nontrivial = ctx.evals
     ctx.traces = ctx.evals
